@@ -10,6 +10,8 @@ the two kinds, are covered by induction.
 -/
 import GeckoModel.Generated.SeqCounter
 import GeckoModel.Proofs.SeqThreads
+import GeckoModel.Model.Coop
+import GeckoModel.Generated.Skeletons
 
 namespace GeckoModel.C16
 open GeckoModel.Generated
@@ -270,5 +272,15 @@ theorem callsites_ok : ∀ cs ∈ seqCallSites, SiteOK cs := by decide
 example : (∃ cs ∈ seqCallSites, cs.command = true) ∧ (∃ cs ∈ seqCallSites, cs.command = false) := by decide
 example : (results nextSeqAsync ⟨190, 254⟩ [false, true, false, true]).map (·.2) = [191, 255, 1, 192] := by decide
 example : Inv ⟨190, 254⟩ 190 63 := by unfold Inv; decide
+
+/-- **nobody but the counter method moves the counters**: over the regenerated skeletons, the request engine (`protocol.get`,
+`struct.get`) and the acknowledging handler assign no attribute of the connection at all (they only CALL
+`get_and_increment_sequence_counter`) - a retry cannot rewind or re-use a number -/
+theorem only_the_counter_method_moves_the_counters :
+    GeckoModel.Coop.selfStateWritten GeckoModel.Generated.Skeletons.sk_driver_async_udp_protocol__GeckoAsyncUdpProtocol_get = [] ∧
+    GeckoModel.Coop.selfStateWritten GeckoModel.Generated.Skeletons.sk_driver_async_spastruct__GeckoAsyncStructure_get = [] ∧
+    (GeckoModel.Generated.Skeletons.all.filter fun p =>
+        (GeckoModel.Coop.actions .set p.2).any fun n => n == "self._sequence_counter_protocol" || n == "self._sequence_counter_command").map (·.1) = [] := by
+  decide +kernel
 
 end GeckoModel.C16
